@@ -82,6 +82,8 @@ func runProfile(j *core.Job, cc checkCfg) {
 		var prog *gen.Prog
 		if cc.profile == "depth" {
 			prog = gen.DepthProg(prng.Derive(j.Seed, cc.prop, bn, "prog"), j.Thorough())
+		} else if cc.profile == "matrix" {
+			prog = gen.MatrixProg(prng.Derive(j.Seed, cc.prop, "matrix", bn, "prog"), 120, cc.profile)
 		} else {
 			prog = gen.GenProg(prng.Derive(j.Seed, cc.prop, bn, "prog"), cfg, "p")
 		}
@@ -160,6 +162,31 @@ func runProfile(j *core.Job, cc checkCfg) {
 		}
 		b.Remove()
 	}
+}
+
+// the matrix parts: systematic outer x inner x statement combinations (sim/gen/matrix.go)
+func C01M(j *core.Job) {
+	runProfile(j, checkCfg{prop: "C01", profile: "matrix", oracle: "values", argVecs: 5})
+}
+
+func C02M(j *core.Job) {
+	runProfile(j, checkCfg{prop: "C02", profile: "matrix", oracle: "refeq", argVecs: 5})
+}
+
+func C03M(j *core.Job) {
+	runProfile(j, checkCfg{prop: "C03", profile: "matrix", oracle: "refeq", argVecs: 5})
+}
+
+func C05M(j *core.Job) {
+	runProfile(j, checkCfg{prop: "C05", profile: "matrix", oracle: "refeq", argVecs: 5})
+}
+
+func C07M(j *core.Job) {
+	runProfile(j, checkCfg{prop: "C07", profile: "matrix", oracle: "optunopt", needUnopt: true, argVecs: 5, maxFault: 4})
+}
+
+func C18M(j *core.Job) {
+	runProfile(j, checkCfg{prop: "C18", profile: "matrix", oracle: "panic", argVecs: 3, maxFault: 40})
 }
 
 func C02(j *core.Job) {
